@@ -13,6 +13,7 @@ mod api;
 mod calib;
 mod checks;
 mod gens;
+mod segs;
 
 use engine::{Ctx, Failure, SubResult, Tier, PROFILE};
 use serde_json::{json, Map, Value};
@@ -425,7 +426,8 @@ fn run_check(prop: &'static str, tier: Tier, secondary: Option<String>, only: Op
         } else {
             PathBuf::from(&source)
         };
-        println!("failure in sub-check {} [{}]: {}", f.subcheck, PROFILE, f.message);
+        let m: String = f.message.chars().take(3000).collect();
+        println!("failure in sub-check {} [{}]: {}", f.subcheck, PROFILE, m);
         let cs = f.case.to_string();
         println!("case: {}", if cs.len() > 2000 { &cs[..2000] } else { &cs });
         println!("VIOLATION property={} replay={}", prop, path.display());
